@@ -3,7 +3,7 @@
     (pairwise distinct, no trailing blank: exactly what the naming routine hands out, see
     [export_names_are_pairable]); [combine_stereo names] lists the files written, each with
     the indices of its source samples in CHANNEL order. *)
-From SE Require Import Base Codecs Cue Names NamesProofs PairProofs.
+From SE Require Import Base Codecs Cue Names NamesProofs PairProofs Transcode TranscodeUnbounded.
 From Coq Require Import Permutation.
 
 (** The hypotheses below hold of every directory the exporter builds. *)
@@ -65,6 +65,17 @@ Theorem pair_complete :
     In (stem, [i; j]) (combine_stereo names).
 Proof. exact combine_stereo_complete_lemma. Qed.
 Print Assumptions pair_complete.
+
+(** The audio of a merged pair: for left and right 16-bit mono streams of equal length the
+    written PCM is their frame-by-frame interleaving, the LEFT sample first in every frame,
+    every frame of both preserved - for every length and every internal block size (this is
+    the transcoder's theorem transcode_stereo_pair of C12 applied to the two source streams
+    [left; right] that combine_stereo hands over in that order, see pair_shape). *)
+Theorem pair_frames_preserved :
+  forall target L R F, zlen L = 2 * F -> zlen R = 2 * F ->
+    transcode target [mono16 L; mono16 R] 2 2 = Ok (interleave2 L R).
+Proof. exact transcode_stereo_pair_lemma. Qed.
+Print Assumptions pair_frames_preserved.
 
 (** The file NAMES after merging need not be distinct (known finding D6, see C06). *)
 Theorem pair_output_names_distinct_refuted :
